@@ -30,8 +30,8 @@ META = dict(
     property="C31",
     level="fault_enumeration",
     technique="op-list histories over two real AMP peers on a harness-owned wire; timeline oracle computed from the decoded wire; connection loss enumerated at every byte boundary of fixed and generated histories",
-    level_text="Generated histories (calls of 4 command kinds from both peers; responders that answer at once, later in any order, never, with declared, fatal-declared or undeclared errors, and with exceptions that are (direct or indirect) SUBCLASSES of a declared / fatal-declared error, which must reach the caller as that declared error; re-entrant follow-up calls from result callbacks; chunked / byte-wise delivery; loss of either side at any op) are run against two real amp.AMP instances. For fixed scenario histories and for a sample of generated ones the loss is additionally injected at EVERY byte boundary of the whole exchange, for victim A, B and both. For each call the oracle derives from the recorded wire and delivery timeline the exact step and value it must fire with: own answer / own declared error / UnknownRemoteError / UnhandledCommand, else the loss reason object of its side at the loss step; calls after loss must have fired before callRemote returns. Responder invocations are checked the same way (exactly once, at the step the command box became complete).",
-    level_note="Trusted: the in-memory transport (modelled on abstract.FileDescriptor: loseConnection stops reading, flushes, then both sides get ConnectionDone), the 25-line reference box decoder, the test-double responders. Not covered: TLS, protocol switching, responders returning unserialisable values, real sockets. Loss is enumerated per byte boundary of delivered data, not inside a single dataReceived call.",
+    level_text="Generated histories (calls of 5 command kinds from both peers, one of them a ProtocolSwitchCommand that completes, fails or stays pending while other calls are outstanding; responders that answer at once, later in any order, never, with declared, fatal-declared or undeclared errors, and with exceptions that are (direct or indirect) SUBCLASSES of a declared / fatal-declared error, which must reach the caller as that declared error; re-entrant follow-up calls from result callbacks; chunked / byte-wise delivery; loss of either side at any op) are run against two real amp.AMP instances. For fixed scenario histories and for a sample of generated ones the loss is additionally injected at EVERY byte boundary of the whole exchange, for victim A, B and both. For each call the oracle derives from the recorded wire and delivery timeline the exact step and value it must fire with: own answer / own declared error / UnknownRemoteError / UnhandledCommand, else the loss reason object of its side at the loss step; calls after loss must have fired before callRemote returns. Responder invocations are checked the same way (exactly once, at the step the command box became complete).",
+    level_note="Trusted: the in-memory transport (modelled on abstract.FileDescriptor: loseConnection stops reading, flushes, then both sides get ConnectionDone), the 25-line reference box decoder, the test-double responders. Protocol switching: only the fate of callRemote Deferreds is asserted (a side that is switching / has switched cannot send boxes, so calls it leaves unanswered must fail with the loss reason); callRemote on a locked side (documented to raise ProtocolSwitched) is not exercised, nor is the inner protocol's data. Not covered: TLS, responders returning unserialisable values, real sockets. Loss is enumerated per byte boundary of delivered data, not inside a single dataReceived call.",
     design_ref="§5 C31",
     rule="case = op list (+ loss point). non-trivial = at some step >=3 calls of one history were in flight, the answers reached a caller in an order different from the order of its calls, and a connection loss failed at least one pending call; distinct by (ops, loss_at).",
 )
@@ -123,6 +123,40 @@ def kit():
         arguments = [(b"id", amp.Integer()), (b"pad", amp.String())]
         response = [(b"id", amp.Integer())]
 
+    from twisted.internet.protocol import Protocol
+
+    class Inner(Protocol):
+        """What a connection is switched to: records, never writes."""
+
+        def __init__(self):
+            self.received = []
+            self.lost = []
+
+        def dataReceived(self, data):
+            self.received.append(data)
+
+        def connectionLost(self, reason):
+            self.lost.append(reason)
+
+    class SwitchFactory:
+        def __init__(self):
+            self.events = []
+
+        def buildProtocol(self, addr):
+            self.events.append("build")
+            return Inner()
+
+        def clientConnectionFailed(self, connector, reason):
+            self.events.append("failed")
+
+        def clientConnectionLost(self, connector, reason):
+            self.events.append("lost")
+
+    class Switch(amp.ProtocolSwitchCommand):
+        commandName = b"switch"
+        arguments = [(b"id", amp.Integer()), (b"pad", amp.String())]
+        errors = {DeclaredA: b"SW_A"}
+
     class Peer(amp.AMP):
         def __init__(self, h, side):
             amp.AMP.__init__(self)
@@ -141,9 +175,14 @@ def kit():
         def r_quiet(self, id, pad):
             return self.h.responder(self.side, "quiet", id, pad)
 
+        @Switch.responder
+        def r_switch(self, id, pad):
+            return self.h.responder(self.side, "switch", id, pad)
+
     _K.update(amp=amp, DeclaredA=DeclaredA, DeclaredB=DeclaredB, FatalE=FatalE, Boom=Boom,
               SubA=SubA, SubB=SubB, SubFatal=SubFatal,
-              cmds=dict(echo=Echo, other=Other, quiet=Quiet, unknown=Unknown), Peer=Peer)
+              Inner=Inner, SwitchFactory=SwitchFactory,
+              cmds=dict(echo=Echo, other=Other, quiet=Quiet, unknown=Unknown, switch=Switch), Peer=Peer)
     return _K
 
 
@@ -152,7 +191,8 @@ OTHER = {"A": "B", "B": "A"}
 DECLARED = {"declA": ("declA", "DeclaredA"), "declB": ("declB", "DeclaredB"), "fatal": ("fatal", "FatalE"),
             "subA": ("declA", "DeclaredA"), "subB": ("declB", "DeclaredB"), "subFatal": ("fatal", "FatalE")}
 ERR_CODES = {("echo", "declA"): b"DECL_A", ("echo", "declB"): b"DECL_B", ("echo", "fatal"): b"FATAL",
-             ("other", "declA"): b"OTHER_A", ("other", "declB"): b"DECL_B", ("other", "fatal"): b"FATAL"}
+             ("other", "declA"): b"OTHER_A", ("other", "declB"): b"DECL_B", ("other", "fatal"): b"FATAL",
+             ("switch", "declA"): b"SW_A"}
 
 
 class _Transport:
@@ -198,11 +238,18 @@ class _Side:
         self.closing = False
         self.proto = None
         self.pending = []            # call ids whose responder returned an unfired Deferred
+        # Protocol switching.  A side is `locked` (may not send AMP boxes: its
+        # answers are dropped, callRemote raises ProtocolSwitched) from the
+        # moment it asks for a switch until that request fails, and for good
+        # once it has sent / received a successful switch answer.
+        self.locked = False
+        self.switched = False
+        self.lock_log = []           # (event number, step, locked?)
 
 
 class Call:
     __slots__ = ("id", "side", "cmd", "beh", "pad", "chain", "t", "after_loss", "fired",
-                 "sync", "outcome", "resolved_t", "deferred", "is_chain")
+                 "sync", "outcome", "resolved_t", "resolved_ev", "deferred", "is_chain")
 
     def __init__(self, **kw):
         for k in self.__slots__:
@@ -223,6 +270,8 @@ class Harness:
         self.loss_at = list(la) if la else None
         self.max_inflight = 0
         self.cb_errors = []
+        self.ev = 0                  # finer clock than `t`: orders events inside one step
+        self.skipped_locked = 0
         for name in "AB":
             p = self.k["Peer"](self, name)
             self.sides[name].proto = p
@@ -237,6 +286,8 @@ class Harness:
                 return dict(id=call.id, who=OTHER[call.side].encode())
             if call.cmd == "other":
                 return dict(val="r%d" % call.id)
+            if call.cmd == "switch":
+                return k["Inner"]()
             return {}
         if outcome == "declA":
             return k["DeclaredA"]("decl-a-%d" % call.id)
@@ -267,7 +318,9 @@ class Harness:
                 return call.deferred
             call.outcome = call.beh
             call.resolved_t = self.t
+            call.resolved_ev = self.tick()
             r = self.result_for(call, call.beh)
+            self.note_switch_answer(side, call, call.beh)
         except Exception as e:  # harness bug: must not vanish inside maybeDeferred
             self.cb_errors.append(e)
             raise
@@ -279,14 +332,43 @@ class Harness:
     def step(self):
         self.t += 1
 
+    def tick(self):
+        self.ev += 1
+        return self.ev
+
+    def set_lock(self, side, state):
+        s = self.sides[side]
+        s.locked = state
+        s.lock_log.append((self.tick(), self.t, state))
+
+    def note_switch_answer(self, side, call, outcome):
+        """The responder side switches as soon as it has sent a successful
+        switch answer -- which it can only do while it may still send boxes."""
+        s = self.sides[side]
+        if call.cmd == "switch" and outcome == "ok" and not s.locked and not s.lost:
+            s.switched = True
+            self.set_lock(side, True)
+
     def do_call(self, side, cmd, beh, pad, chain, is_chain=False):
         s = self.sides[side]
+        if s.locked and (not s.lost or cmd == "switch"):
+            # callRemote is documented to raise ProtocolSwitched here (and a
+            # second switch request on an already switched connection fails
+            # with ProtocolSwitched even after the loss); that is not part of
+            # this property, so such calls are simply not made.
+            self.skipped_locked += 1
+            return
         call = Call(id=len(self.calls) + 1, side=side, cmd=cmd, beh=beh, pad=pad, chain=chain,
                     t=self.t, after_loss=s.lost, fired=[], is_chain=is_chain)
         self.calls.append(call)
         self.by_id[call.id] = call
         padb = (b"p%d." % call.id) * (pad // 3 + 1)
-        d = s.proto.callRemote(self.k["cmds"][cmd], id=call.id, pad=padb[:pad])
+        if cmd == "switch":
+            d = s.proto.callRemote(self.k["cmds"][cmd], self.k["SwitchFactory"](), id=call.id, pad=padb[:pad])
+            if not s.lost:
+                self.set_lock(side, True)
+        else:
+            d = s.proto.callRemote(self.k["cmds"][cmd], id=call.id, pad=padb[:pad])
         if cmd == "quiet":
             call.sync = d
             return
@@ -294,10 +376,14 @@ class Harness:
 
         def ok(res, call=call):
             call.fired.append((self.t, "ok", res))
+            if call.cmd == "switch":
+                self.sides[call.side].switched = True      # and it stays locked
             self.follow(call)
 
         def err(f, call=call):
             call.fired.append((self.t, "err", f))
+            if call.cmd == "switch" and not call.after_loss:
+                self.set_lock(call.side, False)            # a failed request unlocks
             self.follow(call)
         # (follow() keeps exceptions out of the Deferred: see cb_errors)
 
@@ -391,10 +477,14 @@ class Harness:
         call = self.by_id[cid]
         if call.cmd == "quiet" and outcome in DECLARED:
             outcome = "boom"
+        if call.cmd == "switch" and outcome in DECLARED:
+            outcome = "declA"
         self.step()
         call.outcome = outcome
         call.resolved_t = self.t
+        call.resolved_ev = self.tick()
         r = self.result_for(call, outcome)
+        self.note_switch_answer(side, call, outcome)
         if isinstance(r, Exception):
             call.deferred.errback(r)
         else:
@@ -409,6 +499,8 @@ class Harness:
                 _, side, cmd, beh, pad, chain = op
                 if cmd in ("quiet", "unknown") and beh in DECLARED:
                     beh = "boom" if cmd == "quiet" else "ok"
+                if cmd == "switch" and beh in DECLARED:
+                    beh = "declA"
                 self.step()
                 self.do_call(side, cmd, beh, pad, chain)
                 self.settle()
@@ -455,6 +547,14 @@ def describe(k, kind, val):
     if type(v) is amp.UnhandledCommand:
         return ("UnhandledCommand", None)
     return ("exc", v)
+
+
+def locked_at(side, ev):
+    state = False
+    for e, t, st_ in side.lock_log:
+        if e <= ev:
+            state = st_
+    return state
 
 
 def judge(ctx, case, h):
@@ -514,8 +614,22 @@ def judge(ctx, case, h):
                 outcome, tr = ("unhandled", ta)
             else:
                 outcome, tr = c.outcome, c.resolved_t
-            answered = tr is not None and (sy.lost_t is None or tr < sy.lost_t)
+            alive = tr is not None and (sy.lost_t is None or tr < sy.lost_t)
             ans = [(b, e) for b, e in streams[Y] if b.get(b"_answer") == tag or b.get(b"_error") == tag]
+            if c.cmd == "unknown":
+                # no harness event marks the moment of this answer: if Y's
+                # right to send boxes changed during that very step, either
+                # outcome is accepted and the wire decides
+                if alive and any(t == ta for e, t, st_ in sy.lock_log):
+                    if len(ans) > 1:
+                        V("answer-box-count", case, f"call {c.id}: {len(ans)} answers")
+                    answered = bool(ans)
+                else:
+                    before = [st_ for e, t, st_ in sy.lock_log if t < (ta or 0)]
+                    answered = alive and not (before[-1] if before else False)
+            else:
+                # a side that is switching / has switched protocols cannot send boxes
+                answered = alive and not locked_at(sy, c.resolved_ev)
             if len(ans) != (1 if answered else 0):
                 V("answer-box-count", case,
                   f"call {c.id} tag {tag!r}: {len(ans)} answer/error boxes from {Y}, expected {1 if answered else 0} (outcome {outcome} at step {tr}, {Y} lost at {sy.lost_t})")
@@ -539,6 +653,8 @@ def judge(ctx, case, h):
                     res = h.result_for(c, "ok")
                     if c.cmd == "echo":
                         res = dict(id=res["id"], who=res["who"])
+                    if c.cmd == "switch":
+                        res = {}
                     want = ("ok", res)
                 elif outcome in DECLARED:
                     want = (DECLARED[outcome][1],
@@ -619,6 +735,17 @@ def one_run(ctx, case, count=True):
             if c.fired[0][1] == "err" and c.fired[0][2].value in (h.sides["A"].lost_exc, h.sides["B"].lost_exc):
                 d = "loss"
             ctx.count("result " + d)
+    if any(c.cmd == "switch" for c in h.calls):
+        ctx.count("runs with a protocol switch request")
+    done = [c for c in h.calls if c.cmd == "switch" and c.fired and c.fired[0][1] == "ok"]
+    if done or any(s.switched for s in h.sides.values()):
+        ctx.count("runs with a completed protocol switch")
+        stranded = [c for c in loss_failed if any(c.t <= sw.fired[0][0] for sw in done) or not done]
+        if stranded:
+            ctx.count("runs: calls outstanding across a completed switch, failed by the loss")
+            ctx.count("calls outstanding across a completed switch, failed by the loss", len(stranded))
+    if h.skipped_locked:
+        ctx.count("calls not made because the side was locked by a switch", h.skipped_locked)
     nsub = sum(1 for c in live if c.outcome in ("subA", "subB", "subFatal"))
     if nsub:
         ctx.count("runs with a responder raising a subclass of a declared error")
@@ -656,7 +783,7 @@ def run_case(ctx, case):
 # generators
 
 SIDES = st.sampled_from(["A", "B"])
-CMDS = st.sampled_from(["echo", "echo", "other", "other", "quiet", "unknown"])
+CMDS = st.sampled_from(["echo", "echo", "echo", "other", "other", "other", "quiet", "unknown", "switch"])
 BEHS = st.sampled_from(["ok", "ok", "later", "later", "later", "never", "declA", "declB", "fatal", "boom",
                         "subA", "subB", "subFatal"])
 OUTCOMES = st.sampled_from(["ok", "ok", "ok", "declA", "declB", "fatal", "boom", "subA", "subB", "subFatal"])
@@ -695,11 +822,32 @@ def burst(draw):
     return ops
 
 
+@st.composite
+def switch_scene(draw):
+    """Calls left outstanding in both directions, then a protocol switch."""
+    side = draw(SIDES)
+    ops = []
+    for _ in range(draw(st.integers(1, 3))):
+        ops.append(["call", draw(SIDES), draw(st.sampled_from(["echo", "other"])),
+                    draw(st.sampled_from(["later", "later", "never", "ok"])), draw(PADS), draw(CHAIN)])
+    if draw(st.booleans()):
+        ops += [["deliver", "A", 0], ["deliver", "B", 0]]
+    ops.append(["call", side, "switch", draw(st.sampled_from(["ok", "ok", "later", "declA", "boom", "never"])),
+                draw(PADS), draw(CHAIN)])
+    ops.append(draw(st.sampled_from([["deliver", side, 0], ["dribble", side], ["deliver", side, 40]])))
+    for _ in range(draw(st.integers(0, 3))):
+        ops.append(draw(st.one_of(fire_op, deliver_op, call_op)))
+    ops.append(draw(st.sampled_from([["deliver", OTHER[side], 0], ["dribble", OTHER[side]], ["lose", side, "lost"],
+                                     ["lose", OTHER[side], "done"]])))
+    return ops
+
+
 fragment = st.one_of(
     call_op.map(lambda o: [o]), call_op.map(lambda o: [o]),
     deliver_op.map(lambda o: [o]), deliver_op.map(lambda o: [o]),
     fire_op.map(lambda o: [o]),
     burst(), burst(),
+    switch_scene(),
     lose_op.map(lambda o: [o]),
 )
 
@@ -755,6 +903,13 @@ FIXED.append(
     [_c("A", "echo", "later", 1), _c("A", "other", "later"), _c("A", "echo", "subB"), _c("B", "echo", "later"),
      ["deliver", "A", 0], ["deliver", "B", 0], ["fire", "B", 1, "subA"], ["deliver", "B", 0],
      ["fire", "B", 0, "ok"], ["fire", "A", 0, "subFatal"], ["deliver", "B", 0], ["deliver", "A", 0]])
+
+
+FIXED.append(
+    # calls outstanding in both directions when a protocol switch completes
+    [_c("A", "echo", "later", 1), _c("B", "other", "later"), _c("A", "other", "ok"), ["deliver", "A", 0], ["deliver", "B", 0],
+     _c("A", "switch", "later"), ["deliver", "A", 0], ["fire", "B", 1, "ok"], ["deliver", "B", 0],
+     ["fire", "B", 0, "ok"], ["fire", "A", 0, "ok"], ["deliver", "B", 0], ["deliver", "A", 0]])
 
 
 def _enum_fixed(ctx):
